@@ -587,6 +587,129 @@ def run_counterfactuals(ck, T, binname, drv, judge):
 
 
 # ---------------------------------------------------------------------------------------------
+# small-domain search (model first, then replay on the implementation)
+# ---------------------------------------------------------------------------------------------
+
+
+def _q(qid, kind, sql, nkeys, desc, keypos, lim, off, where=(), whpos=()):
+    return "(query %d %s %s %d (desc %s) (keypos %s) %s %s (where %s) (whpos %s))" % (
+        qid, kind, sql.encode().hex(), nkeys, " ".join(desc), " ".join(map(str, keypos)), lim, off,
+        " ".join(where), " ".join(map(str, whpos)))
+
+
+def hit_to_case(hit, cid):
+    """(found c12|c13 (attr ..) (ncols n) (key k) ... (rowsets ((row) ...) ...)) -> case line"""
+    kind = hit[1]
+    ncols = int(field(hit, "ncols")[0])
+    k = int(field(hit, "key")[0])
+    rowsets = field(hit, "rowsets")
+    ops = " ".join("(ins %s)" % " ".join("(%s)" % " ".join(r) for r in rs) for rs in rowsets)
+    cols = " ".join("(i32 false)" for _ in range(ncols))
+    if kind == "c13":
+        scols = field(hit, "cols")
+        rng = field(hit, "range")
+        atoms, where = [], []
+        lo, hi = rng
+        for b, ops_ in ((lo, {"incl": ">=", "excl": ">"}), (hi, {"incl": "<=", "excl": "<"})):
+            if b != "unb":
+                v = b[1].split(":")[1]
+                atoms.append("c%d %s %s" % (k, ops_[b[0]], v))
+                where.append("(%d %s %s false)" % (k, ops_[b[0]], b[1]))
+        sel = ", ".join("c%s" % c for c in scols)
+        qs = []
+        if atoms:
+            qs.append(_q(0, "main", "select %s from t where %s" % (sel, " and ".join(atoms)), 0, [], [], "none", "none", where, []))
+            qs.append(_q(0, "U", "select %s%s from t" % (sel, "".join(", c%d" % k for _ in atoms)), len(atoms), [], [], "none", "none", where,
+                         [len(scols) + i for i in range(len(atoms))]))
+        scans = "(s (cols %s) none false) (s (cols %s) (range %s %s) false)" % (" ".join(scols), " ".join(scols), sexp_str(lo), sexp_str(hi))
+        return "(case %d (mode bg) (block 24) (cols %s) (pk %d) (pkdecl col) (ops %s) (queries %s) (scans %s))" % (cid, cols, k, ops, " ".join(qs), scans)
+    keyed = field(hit, "keyed")[0] == "true"
+    desc = field(hit, "desc")[0]
+    lim = field(hit, "limit")[0]
+    off = field(hit, "offset")[0]
+    ob = " order by c%d%s" % (k, " desc" if desc == "true" else "")
+    tail = ("" if lim == "none" else " limit %s" % lim) + ("" if off == "0" else " offset %s" % off)
+    qs = [_q(0, "main", "select c%d from t%s%s" % (k, ob, tail), 0, [desc], [0], lim, "none" if off == "0" else off),
+          _q(0, "A", "select c%d, c%d from t%s" % (k, k, ob), 1, [desc], [1], "none", "none"),
+          _q(0, "U", "select c%d, c%d from t" % (k, k), 1, [desc], [1], "none", "none")]
+    return "(case %d (mode bg) (block 24) (cols %s) (pk %s) (pkdecl %s) (ops %s) (queries %s) (scans (s (cols %s) none false)))" % (
+        cid, cols, k if keyed else "none", "col" if keyed else "none", ops, " ".join(qs), " ".join(str(c) for c in range(ncols)))
+
+
+def model_search(ck, T, which, binname, drv, judge):
+    """Enumerates the small domain on the MODEL (<= 3 row-sets x <= 4 rows, keys 0..2, every key
+    position / scan list / bound kind / direction / limit kind) looking for inputs on which the
+    PROPERTY fails, grouped by the minimal set of known mechanisms that explains the failure;
+    the smallest input of every group is replayed on the implementation. A group that no
+    mechanism explains (`none`), confirmed by the model-free oracle on the implementation, is a
+    concrete violation."""
+    rc, out = vlib.sh([vlib.lean_exe(drv)], stdin="(search %s)\n" % which, timeout=600)
+    line = [l for l in out.split("\n") if l.startswith("(search ")]
+    if rc != 0 or not line:
+        T.corr.append(("search", "model search did not run: %s" % out[-500:], {}))
+        return {}
+    res = parse_sexp(line[0])
+    hits = [x for x in res[2:] if isinstance(x, list) and x[0] == "found"]
+    info = {"enumerated": int(field(res[2:], "enumerated")[0]), "property_fails_in_model": int(field(res[2:], "failing")[0]),
+            "groups": {" + ".join(field(h, "attr")): None for h in hits}}
+    lines = [hit_to_case(h, 3000000 + i) for i, h in enumerate(hits)]
+    runs = run_cases(ck, binname, drv, lines, "search")
+    for h, r in zip(hits, runs):
+        attr = field(h, "attr")
+        T2 = Tally()
+        judge(r, T2)
+        failing = [f for f in T2.findings]
+        info["groups"][" + ".join(attr)] = "replayed on the implementation: %s" % (
+            "property fails there too (%s)" % ", ".join(sorted({f[0] for f in failing})) if failing else "property holds there")
+        T.mvi["compared"] += T2.mvi["compared"]
+        T.mvi["disagree"] += T2.mvi["disagree"]
+        T.corr.extend(T2.corr)
+        for sig, what, rep in failing:
+            if attr == ["none"] and not sig.startswith("unexplained"):
+                sig = "unexplained:search"
+            T.findings.append((sig, "[small-domain search] " + what, rep))
+    return info
+
+
+def impl_search(ck, T, which, binname, drv, judge, n=150):
+    """When the tie between model and code is broken the model cannot guide the search: replay a
+    seeded sample of the small domain directly on the implementation and judge it with the
+    model-free oracle."""
+    import random
+    rnd = random.Random(ck.seed)
+    lines = []
+    for i in range(n):
+        ncols = rnd.choice([1, 2])
+        k = rnd.randrange(ncols)
+        nrs = rnd.choice([1, 2, 2, 3])
+        rowsets = []
+        for rsid in range(nrs):
+            keys = sorted(rnd.choice([0, 1, 2]) for _ in range(rnd.randint(1, 4 if nrs < 3 else 2)))
+            rowsets.append([[("i32:%d" % v) if c == k else ("i32:%d" % rnd.choice([0, 7 - j - 3 * rsid])) for c in range(ncols)] for j, v in enumerate(keys)])
+        if which == "c13":
+            scols = rnd.choice([[str(k)], [str(c) for c in range(ncols)], [str(c) for c in reversed(range(ncols))]])
+
+            def b():
+                kind = rnd.choice(["unb", "incl", "excl"])
+                return "unb" if kind == "unb" else [kind, "i32:%d" % rnd.choice([0, 1, 2])]
+            hit = ["found", "c13", ["attr", "sample"], ["ncols", str(ncols)], ["key", str(k)], ["cols"] + scols, ["range", b(), b()], ["rowsets"] + rowsets]
+        else:
+            lim, off = rnd.choice([("none", "0"), ("1", "0"), ("2", "1"), ("none", "0")])
+            hit = ["found", "c12", ["attr", "sample"], ["ncols", str(ncols)], ["key", str(k)], ["keyed", rnd.choice(["true", "true", "false"])],
+                   ["desc", rnd.choice(["false", "true"])], ["limit", lim], ["offset", off], ["rowsets"] + rowsets]
+        lines.append(hit_to_case(hit, 4000000 + i))
+    runs = run_cases(ck, binname, drv, lines, "implsearch")
+    found = 0
+    for r in runs:
+        T2 = Tally()
+        judge(r, T2)
+        for sig, what, rep in T2.findings:
+            found += 1
+            T.findings.append((sig, "[small-domain sample on the implementation] " + what, rep))
+    return {"sampled": n, "oracle_failures": found}
+
+
+# ---------------------------------------------------------------------------------------------
 # the check
 # ---------------------------------------------------------------------------------------------
 
@@ -629,7 +752,7 @@ def finish_reports(ck, T, binname):
 
 
 def run(ck):
-    n = 480 if ck.quick() else 3000
+    n = 420 if ck.quick() else 3000
     bad = vlib.step_lean(ck, "RlModel.Thm.C12", THEOREMS, extra_targets=["drv_c12"])
     ok, log = vlib.step_cargo(ck, ["c12"])
     if not ok:
@@ -650,6 +773,12 @@ def run(ck):
     res = run_cases(ck, "c12", "drv_c12", allc, "all")
     for r in res:
         judge_case(r, T, "C12")
+    jd = lambda r, T2: judge_case(r, T2, "C12")
+    search = model_search(ck, T, "c12", "c12", "drv_c12", jd)
+    if bad or T.corr:
+        # a theorem or the correspondence is broken: look for a concrete failing input directly on the implementation
+        search["implementation_sample"] = impl_search(ck, T, "c12", "c12", "drv_c12", jd)
+    cfs = run_counterfactuals(ck, T, "c12", "drv_c12", jd)
     # theorem failures: the obligations no longer check -> look whether the oracle found an unexplained failure
     unexplained = [f for f in T.findings if f[0].startswith("unexplained")]
     for name, st in bad.items():
@@ -658,10 +787,9 @@ def run(ck):
             ck.report("thm:" + name, "theorem %s no longer checks (%s); failing input: %s" % (name, st.get("status"), what), replay=rep, found_input=True)
         else:
             ck.report("thm:" + name, "theorem %s no longer checks: %s" % (name, st), replay={"theorem": name, "status": st}, found_input=False)
-    cfs = run_counterfactuals(ck, T, "c12", "drv_c12", lambda r, T2: judge_case(r, T2, "C12"))
     finish_reports(ck, T, "c12")
     ck.coverage.update({
-        "counterfactuals": cfs,
+        "counterfactuals": cfs, "small_domain_search": search,
         "evaluations": T.mvi["compared"], "distinct_nontrivial": len(T.nontrivial),
         "rule": "distinct (case, SQL text, optimizer setting) whose table has >= 2 row-sets, whose result is non-empty and passes the oracle",
         "samples": T.samples[:8], "model_vs_impl": T.mvi, "impl_vs_oracle": T.ivo, "model_vs_oracle": T.mvo,
